@@ -280,6 +280,13 @@ def py_eval(r, env):
         return py_eval(r[2], env)[gen_terms._index_of(r[1])]
     if t == "getitem":
         return py_eval(r[1], env)[int(py_eval(r[2], env))]
+    if t == "nreduce":
+        _, op, a, own, foreign = r
+        names = list(own) + [n for n, _ in foreign]
+        sizes = _sizes_in(a, own) + [s_ for _, s_ in foreign]
+        block = np.stack([np.asarray(py_eval(a, {**env, **dict(zip(names, pt))}), dtype=float)
+                          for pt in itertools.product(*[range(s_) for s_ in sizes])])
+        return {"mean": np.mean, "var": np.var, "std": np.std}[op](block, axis=0)
     if t == "getsugar":
         a = py_eval(r[1], env)
         index = []
@@ -911,6 +918,96 @@ def run_outred(ctx, quick):
                  nontrivial_key=repr(gen_terms.describe(recipe)) if val.inputs else None)
 
 
+def run_named_agg(ctx, quick):
+    """Named reductions with the NON-associative aggregates: x.reduce(ops.mean | ops.var | ops.std, frozenset of
+    Variable objects) over every split {subset of own inputs} ∪ {0-2 foreign Bint variables of size 1-3}, on ground
+    tensors and on lazy expressions whose real input is bound afterwards.  Oracle: brute force over the FULL grid of
+    the requested variables (a variable the funsor does not mention replicates the value: mean / var / std are
+    unchanged); values to 1e-12."""
+    rng = ctx.rng
+    vals = [-2.0, -1.0, -0.5, 0.0, 0.25, 1.0, 2.0, 3.0]
+    confs = [(), (("i", 2),), (("i", 3), ("j", 2)), (("j", 2), ("i", 2), ("k", 3))]
+    foreigns = [(), (("p", 1),), (("p", 2),), (("p", 3),), (("p", 2), ("q", 3)), (("q", 1), ("p", 3))]
+    cases = []
+    for ins in confs:
+        names = [n for n, _ in ins]
+        subsets = [tuple(n for n, b in zip(names, bits) if b) for bits in itertools.product([0, 1], repeat=len(names))]
+        for ev in [(), (2,)]:
+            full = tuple(s_ for _, s_ in ins) + ev
+            for own in subsets:
+                for foreign in foreigns:
+                    if not own and not foreign:
+                        continue
+                    for op in ("mean", "var", "std"):
+                        if quick and rng.random() < 0.5:
+                            continue
+                        data = np.array([rng.choice(vals) for _ in range(int(np.prod(full)) if full else 1)],
+                                        dtype=np.float64).reshape(full)
+                        t = ("tensor", ins, "real", ev, data)
+                        cases.append((("nreduce", op, t, own, foreign), {}))
+    # lazy: a real input stays free during the reduction and is bound afterwards
+    for ins in confs[1:]:
+        names = [n for n, _ in ins]
+        for own in [tuple(names[:1]), tuple(names)]:
+            for foreign in foreigns[1:5]:
+                for op in ("mean", "var", "std"):
+                    full = tuple(s_ for _, s_ in ins)
+                    d1 = np.array([rng.choice(vals) for _ in range(int(np.prod(full)))], dtype=np.float64).reshape(full)
+                    d2 = np.array([rng.choice(vals) for _ in range(ins[0][1])], dtype=np.float64)
+                    body = ("binary", "add", ("binary", "mul", ("tensor", ins, "real", (), d1), ("rvar", "x", ())),
+                            ("tensor", (ins[0],), "real", (), d2))
+                    cases.append((("nreduce", op, body, own, foreign), {"x": rng.choice(DYADIC)}))
+    ctx.count("nagg:enumerated", len(cases))
+    for recipe, env in cases:
+        try:
+            syn = syntax(recipe[2])
+            ins = sorted((k, int(v.size)) for k, v in syn.inputs.items()
+                         if k not in recipe[3] and k not in env)
+            with np.errstate(all="ignore"):
+                want = py_table(recipe, ins, env)
+        except Exception as e:
+            ctx.count(f"nagg:oracle-declined:{type(e).__name__}")
+            continue
+        with np.errstate(all="ignore"):
+            st, val = evaluate(recipe)
+        ctx.count(f"nagg:op:{recipe[1]}:own{len(recipe[3])}:foreign{len(recipe[4])}")
+        if st != "value":
+            ctx.count(f"nagg:impl-declined:{val.split(':')[0]}")
+            ctx.case()
+            continue
+        try:
+            with np.errstate(all="ignore"):
+                bound = val(**{k: v for k, v in env.items() if k in val.inputs}) if env else val
+        except DECLINE as e:
+            ctx.count(f"nagg:impl-declined-on-binding:{type(e).__name__}")
+            ctx.case()
+            continue
+        if not isinstance(bound, (Tensor, Number)):
+            ctx.count("nagg:impl-lazy")
+            ctx.case()
+            continue
+        try:
+            got = ser.impl_values(bound, ins)
+        except (KeyError, ValueError) as e:
+            ctx.fail("input", "C01.result-inputs", witness={"recipe": gen_terms.describe(recipe), "env": _env_json(env)},
+                     got=str(e)[:300], expected=str(ins), python=replay_python(recipe, env))
+            continue
+        ok = len(got) == len(want) and all(
+            list(a[0]) == list(b[0]) and len(a[1]) == len(b[1]) and
+            np.allclose(np.array(a[1], dtype=float), np.array(b[1], dtype=float), rtol=1e-12, atol=1e-12, equal_nan=True)
+            for a, b in zip(got, want))
+        if not ok:
+            wtab = [(c_[0], [float(x) for x in c_[1]]) for c_ in want]
+            ctx.fail("input", "C01.eager-ne-denote-named-aggregate",
+                     witness={"recipe": gen_terms.describe(recipe), "env": _env_json(env)},
+                     expected=("aggregate over the full grid of the requested variables: " + str(wtab))[:600],
+                     got=str([(c_[0], [float(x) for x in c_[1]]) for c_ in got])[:600],
+                     python=replay_python(recipe, env, wtab, ins))
+            continue
+        ctx.case(sample={"stream": "nagg", "expr": gen_terms.python_of(recipe)[:200]},
+                 nontrivial_key=repr(gen_terms.describe(recipe)))
+
+
 def run_independent_echo(ctx, cases):
     """Three-way for Independent: the NT model `pevalIndependent` (Props/C01/Independent.lean: independent_sem) vs
     Lean `denote` vs the eager result after binding the real input.  One driver call for the whole batch."""
@@ -1155,6 +1252,7 @@ def correspond(ctx):
     run_cases(ctx, stream_getitem_enum(ctx))
     run_phi(ctx, 400 if quick else 8000)
     run_outred(ctx, quick)
+    run_named_agg(ctx, quick)
     stream_known_minmax(ctx)
     stream_known_reduce_andor(ctx)
     # fidelity percentages
